@@ -64,6 +64,11 @@ impl JwkStorage for JwkMemStore {
       MemStoreKeyType::Ed25519 => {
         let private_key = SecretKey::generate()
           .map_err(|err| KeyStorageError::new(KeyStorageErrorKind::RetryableIOFailure).with_source(err))?;
+        #[cfg(identity_rs_verif)]
+        let private_key = match crate::verif_hooks::next_secret() {
+          Some(seed) => SecretKey::from_bytes(&seed),
+          None => private_key,
+        };
         let public_key = private_key.public_key();
         (private_key, public_key)
       }
@@ -76,6 +81,8 @@ impl JwkStorage for JwkMemStore {
     };
 
     let kid: KeyId = random_key_id();
+    #[cfg(identity_rs_verif)]
+    let kid: KeyId = crate::verif_hooks::next_key_id().map(KeyId::new).unwrap_or(kid);
 
     let mut jwk: Jwk = encode_jwk(&private_key, &public_key);
     jwk.set_alg(alg.name());
@@ -83,6 +90,8 @@ impl JwkStorage for JwkMemStore {
     let public_jwk: Jwk = jwk.to_public().expect("should only panic if kty == oct");
 
     let mut jwk_store: RwLockWriteGuard<'_, JwkKeyStore> = self.jwk_store.write().await;
+    #[cfg(identity_rs_verif)]
+    crate::verif_hooks::sched_point("jwk.generate.locked").await;
     jwk_store.insert(kid.clone(), jwk);
 
     Ok(JwkGenOutput::new(kid, public_jwk))
@@ -120,8 +129,12 @@ impl JwkStorage for JwkMemStore {
     }
 
     let key_id: KeyId = random_key_id();
+    #[cfg(identity_rs_verif)]
+    let key_id: KeyId = crate::verif_hooks::next_key_id().map(KeyId::new).unwrap_or(key_id);
 
     let mut jwk_store: RwLockWriteGuard<'_, JwkKeyStore> = self.jwk_store.write().await;
+    #[cfg(identity_rs_verif)]
+    crate::verif_hooks::sched_point("jwk.insert.locked").await;
 
     jwk_store.insert(key_id.clone(), jwk);
 
@@ -130,6 +143,8 @@ impl JwkStorage for JwkMemStore {
 
   async fn sign(&self, key_id: &KeyId, data: &[u8], public_key: &Jwk) -> KeyStorageResult<Vec<u8>> {
     let jwk_store: RwLockReadGuard<'_, JwkKeyStore> = self.jwk_store.read().await;
+    #[cfg(identity_rs_verif)]
+    crate::verif_hooks::sched_point("jwk.sign.locked").await;
 
     // Extract the required alg from the given public key
     let alg = public_key
@@ -174,6 +189,8 @@ impl JwkStorage for JwkMemStore {
 
   async fn delete(&self, key_id: &KeyId) -> KeyStorageResult<()> {
     let mut jwk_store: RwLockWriteGuard<'_, JwkKeyStore> = self.jwk_store.write().await;
+    #[cfg(identity_rs_verif)]
+    crate::verif_hooks::sched_point("jwk.delete.locked").await;
 
     jwk_store
       .remove(key_id)
@@ -436,10 +453,14 @@ pub(crate) mod shared {
     }
 
     pub(crate) async fn read(&self) -> RwLockReadGuard<'_, T> {
+      #[cfg(identity_rs_verif)]
+      crate::verif_hooks::sched_point("shared.read").await;
       self.0.read().await
     }
 
     pub(crate) async fn write(&self) -> RwLockWriteGuard<'_, T> {
+      #[cfg(identity_rs_verif)]
+      crate::verif_hooks::sched_point("shared.write").await;
       self.0.write().await
     }
   }
